@@ -8,7 +8,7 @@ Recorded on the real library, judged by TLC:
  * trace validation against Sem, where the hash functions (hashlib, zlib.crc32, byte sum: documented arguments of Checksum) are uninterpreted and
    their graph on the explored inputs is logged by the harness.
 """
-from .. import ast as A, gen, values as V, campaign, universes as U
+from .. import ast as A, gen, values as V, campaign, universes as U, speccode
 from . import common
 
 LEVEL = "model_checking"
@@ -123,6 +123,9 @@ def run(ctx):
             camp.sh.maybe_flush()
             if i < 3:
                 ctx.sample({"program": prog})
+        # spec -> code: every session TLC explores on the RawCopy part of the model's universe (machine clauses checked on the design there)
+        uprogs, ukw, sessions, _ = speccode.explore(ctx, focus="C14", part=speccode.part_of(ctx, 2 if quick else 4))
+        nt += speccode.drive(camp, uprogs, ukw, sessions)
         vs = camp.validate()
         def conf(v, m):
             k = campaign.kind_of(v)
